@@ -86,6 +86,12 @@ def _one(it, root):
     rng = random.Random(it['seed'])
     l = it['line']
     gtable, gstrings = c14.synthetic(rng), c15.synthetic_strings(rng)
+    if seams._proc_variant in ('posix', 'nohome'):
+        # a process without any UTF-8 locale reads text files as ASCII: the files GIVEN to it are ASCII there (what
+        # a tool does with files its locale cannot decode is not part of this specification)
+        asc = lambda t: ''.join(c if ord(c) < 128 else '?' for c in t)
+        gtable = [dict(e, msg=asc(e['msg'])) for e in gtable]
+        gstrings = [dict(e, msg=asc(e['msg']), loc=asc(e['loc'])) for e in gstrings]
     table, strings = [], []
     if l['type'] in ('mex', 'nimitz'):
         table = drawer.read_pte_table(os.path.join(drawer.io_dir(), l['type'] + '_pte.h'))[0]
